@@ -243,6 +243,21 @@ def check(a, n_runs, n_fleet):
                     found[sig] = (rb, {"prop": "C03", "sig": sig, "seq": -1,
                                        "detail": {"key": k, "other_seed": ra.get("seed")}, "cross": (ra, rb)})
         harness = [h for r in recs + fleet_recs for h in r.get("harness_errors", [])]
+        if a.verbose:
+            cnt = {}
+            for r in recs + fleet_recs:
+                for v in r["violations"]:
+                    c = cnt.setdefault((v["prop"], v["sig"]), [0, r.get("seed"), v["seq"], v["detail"]])
+                    c[0] += 1
+            for (p_, s_), c in sorted(cnt.items()):
+                print(f"  [{p_}] {s_}  x{c[0]}  e.g. seed {c[1]} seq {c[2]} {json.dumps(c[3], default=str)[:160]}")
+            nn = {}
+            for r in recs:
+                for n_ in r.get("notes", []):
+                    k_ = n_["note"][:90]
+                    nn.setdefault(k_, [0, r.get("seed"), n_])[0] += 1
+            for k_, c in sorted(nn.items()):
+                print(f"  note x{c[0]}: {k_}  e.g. seed {c[1]} {json.dumps(c[2], default=str)[:200]}")
 
         new = [s for s in sorted(found) if s not in known]
         old = [s for s in sorted(found) if s in known]
